@@ -37,6 +37,39 @@ CHECKS = {
              "Compiled scanners with rejecting actions (REJECT and yyreject() spellings, 4 back ends) are compared event by event with "
              "the specification's walk and with the walk over the emitted yy_acclist.",
         design="DESIGN.md section 6 C07", technique="machine-checked proof (Rocq) + lock-step on emitted yy_acclist + differential event streams"),
+    "C04": dict(
+        text="Rocq theorems: C04_all_bytes_incl_nul (the match-loop theorem with the lock-step premise checked over all 256 byte values, "
+             "NUL taken through YY_NUL_EC / yy_NUL_trans as the skeleton does) and C04_seven_bit_eight_bit_agree (for every pattern, "
+             "the 7-bit and 8-bit denotations match the same 7-bit words). Real tables of every representation are lock-stepped over the "
+             "full alphabet; compiled scanners (4 back ends, batch/interactive, %array, buffer sizes 1..16) are run on inputs sprinkled "
+             "with NULs and judged by the proved validator; -7 refusal of 8-bit patterns is probed.",
+        design="DESIGN.md section 6 C04", technique="machine-checked proof (Rocq) + lock-step over the full alphabet + proved validator on real token streams"),
+    "C05": dict(
+        text="Rocq theorems: C05_start_state_rules / C05_active_documented (candidates = documented active rules + default rule), "
+             "C05_changes_only_by_begin_push_pop, C05_wrap_keeps_condition, C05_stack_lifo (any number of pushes then pops is the identity), "
+             "C05_underflow_is_fatal, C05_array_stack_refines_list + C05_push_in_bounds (the skeleton's growing array, with "
+             "YY_START_STACK_INCR read from the source, refines the list for every history). Every (condition, BOL) start state of real "
+             "tables for programs with up to 45 conditions is lock-stepped; action programs with begin/push/pop/top are compared event "
+             "by event with the stream machine.",
+        design="DESIGN.md section 6 C05", technique="machine-checked proof (Rocq): invariants + refinement; lock-step on emitted tables; differential event streams"),
+    "C08": dict(
+        text="Rocq: laws of the stream machine for yyless / yyunput / yyinput (C08_less_law, C08_less_keeps_all_bytes, "
+             "C08_unput_next_read, C08_input_returns_next, C08_input_end_value_only_at_end). The machine (extracted) is the oracle: "
+             "compiled scanners (4 back ends, %pointer/%array, small buffers, several sources) running generated action programs are "
+             "compared event by event (rule, yyleng, hash of yytext, yyinput values). Partial: the buffer-layout refinement (R4b/R6 "
+             "concrete) is not proved, the tie of the C code to the machine is differential.",
+        design="DESIGN.md section 6 C08", technique="machine-checked laws of an executable specification (Rocq) + differential event streams"),
+    "C09": dict(
+        text="Rocq theorems C09_lineno_conservation (in every reachable state of the stream machine, for all rules, inputs, sources and "
+             "yyless/yyunput/yyinput/yymore calls: yylineno = 1 + newlines of everything - newlines still unread) and "
+             "C09_untouched_without_option. Compiled scanners print yylineno in every action and are compared with the machine.",
+        design="DESIGN.md section 6 C09", technique="machine-checked invariant (Rocq) over all histories + differential event streams"),
+    "C10": dict(
+        text="Rocq theorems C10_eof_only_when_exhausted (the <<EOF>> action of the current condition runs only when no byte is left in "
+             "any source) and C10_wrap_continues (a source supplied by yywrap continues in the unchanged condition, at BOL, nothing lost). "
+             "Compiled scanners with <<EOF>> rules over subsets of conditions and 1-4 sources chained by yywrap are compared event by "
+             "event with the machine.",
+        design="DESIGN.md section 6 C10", technique="machine-checked proof (Rocq) about the executable specification + differential event streams"),
 }
 
 NOT_YET = {
